@@ -33,9 +33,28 @@ func vpParseSectionStub(section []byte) (*BloomFilters, error) {
 //vp:override bs.getScanBuffer=vpGetScanBuffer
 //vp:override bs.putScanBuffer=vpPutScanBuffer
 //vp:override bs.parseFilterSection=vpParseSectionStub
-//vp:bounds 2 blocks (thorough 3) with unconstrained 64-bit filter offsets/sizes and region, accepted by planBlockFilterReads; file of arbitrary size (< 2^40) and content; any subsequence of blocks consulted in order; each section parses or is malformed
-func HS_C24_filter_cursor_reads_stay_inside_the_region() {
-	n := vpBound(2, 3)
+//vp:bounds 2 blocks with unconstrained 64-bit filter offsets/sizes and region, accepted by planBlockFilterReads; file of arbitrary size (< 2^40) and content; any subsequence of blocks consulted in order; each section parses or is malformed
+func HS_C24_filter_cursor_reads_stay_inside_the_region() { vpCursorBody(2, 0) }
+
+// thorough tier: 3 blocks, split by whether the first block is consulted (two harnesses that run
+// in parallel; together they cover every subsequence)
+//
+//vp:override bs.getScanBuffer=vpGetScanBuffer
+//vp:override bs.putScanBuffer=vpPutScanBuffer
+//vp:override bs.parseFilterSection=vpParseSectionStub
+//vp:thorough
+//vp:bounds 3 blocks, first block consulted; otherwise as HS_C24_filter_cursor_reads_stay_inside_the_region
+func HS_C24_filter_cursor_three_blocks_first_consulted() { vpCursorBody(3, 1) }
+
+//vp:override bs.getScanBuffer=vpGetScanBuffer
+//vp:override bs.putScanBuffer=vpPutScanBuffer
+//vp:override bs.parseFilterSection=vpParseSectionStub
+//vp:thorough
+//vp:bounds 3 blocks, first block not consulted; otherwise as HS_C24_filter_cursor_reads_stay_inside_the_region
+func HS_C24_filter_cursor_three_blocks_first_skipped() { vpCursorBody(3, 2) }
+
+// first: 0 = the first block is consulted or not (symbolic), 1 = consulted, 2 = skipped
+func vpCursorBody(n int, first int) {
 	f := vpNewSymFile()
 	blocks := make([]DataBlockMetadata, n)
 	for i := range blocks {
@@ -52,7 +71,11 @@ func HS_C24_filter_cursor_reads_stay_inside_the_region() {
 	}
 	c := blockFilterCursor{file: f, blocks: blocks, regionStart: regionStart, regionEnd: regionEnd}
 	for i := range blocks {
-		if !nondetBool() {
+		consult := first == 1
+		if i > 0 || first == 0 {
+			consult = nondetBool()
+		}
+		if !consult {
 			continue
 		}
 		before := len(f.log)
